@@ -169,6 +169,9 @@ class CompoundQuery(qcore.Query):
                     if q.overlaps(subqueries[j]):
                         qq = subqueries.pop(j)
                         q = q.merge(qq, intersect=self.intersect_merge)
+                        # The merged range may now overlap a range that was
+                        # passed over before, so look at all of them again
+                        j = i + 1
                     else:
                         j += 1
                 q = subqueries[i] = q.normalize()
@@ -553,6 +556,12 @@ class BinaryQuery(CompoundQuery):
             return a
 
         return self.__class__(a, b)
+
+    def simplify(self, ixreader):
+        # (CompoundQuery.simplify() passes a list and a boost to the
+        # constructor, which binary queries do not take)
+        return self.__class__(self.a.simplify(ixreader),
+                              self.b.simplify(ixreader))
 
     def matcher(self, searcher, context=None):
         return self.matcherclass(self.a.matcher(searcher, context),
